@@ -553,7 +553,8 @@ int process_patch(const Options& options)
         }
 
         File input_file;
-        input_file.open(file_to_patch, mode | std::ios_base::in);
+        // NOTE: the file is only read from here, opening it for writing as well would needlessly fail for read-only files.
+        input_file.open(file_to_patch, (mode & ~std::ios_base::out) | std::ios_base::in);
         if (!input_file && (errno != ENOENT || patch.operation != Operation::Add))
             throw std::system_error(errno, std::generic_category(), "Unable to open input file " + file_to_patch);
 
